@@ -36,7 +36,7 @@ from framelen import Lin
 
 NEED_MORE = ('ctor', 'Ok', (('ctor', 'None', ()),))
 # calls that take the buffer and leave it as it is (everything else that is handed the buffer counts as touching it: fails closed)
-OBSERVERS = ('len', 'is_empty', 'get', 'first', 'last', 'remaining', 'has_remaining', 'chunk', 'capacity', 'as_ref', 'deref', 'iter',
+OBSERVERS = ('len', 'is_empty', 'get', 'first', 'last', 'split_first', 'split_last', 'remaining', 'has_remaining', 'chunk', 'capacity', 'as_ref', 'deref', 'iter',
              'starts_with', 'ends_with', 'contains', 'as_slice', 'borrow', 'eq', 'ne', 'to_vec', '#index')          # ('#index': a read buf[k] / buf[a..b] as framelen.FramedBuffer records it)
 ACQUIRE = ('std::sync::poison::rwlock::RwLock::<T>::read', 'std::sync::poison::rwlock::RwLock::<T>::write',
            'std::sync::poison::mutex::Mutex::<T>::lock')
@@ -129,6 +129,10 @@ def same_answer(v, t, pc):
     if v[0] == 'ctor' and v[1] == 'Ok' and len(v[2]) == 1 and known('Ok') is True:
         p = v[2][0]
         if p == ('variant', t, 'Ok', 0):
+            return True
+        if p[0] == 'tuple' and p[1] and all(e == ('field', ('variant', t, 'Ok', 0), str(i)) for i, e in enumerate(p[1])):
+            # `let (a, b) = t?; Ok((a, b))`: the payload taken apart and put together again, every component in its place (the number
+            # of components is the payload's own: the rebuilt value has the payload's type, or the function would not compile)
             return True
         # Ok(Some(x)) / Ok(None) rebuilt from the payload
         pay = ('variant', t, 'Ok', 0)
